@@ -15,7 +15,8 @@
 //        files are read back and logged (fixed point and raw float bits); then for EVERY
 //        interruption point k the reconstruction is resumed at sub-iteration k+1 from the file saved
 //        after k (fresh objects as a new process would build them, or the same object continued)
-//        and its saved iterates are logged.
+//        and its saved iterates are logged; finally the same objects are set up and run again from the start
+//        image after having been set up and run with another number of subsets.
 //
 // The only arithmetic on the inputs done here is the CONSTRUCTION of exact instances
 // (y = q * d); TLC recomputes d from the logged P, lambda, a and rejects the line if it is not exact.
@@ -508,6 +509,51 @@ static void run_free(vh::Trace& tr, const Sys& s, const Matrix& m, const Cfg& c0
         remove_saved(rprefix, jn);
       }
     }
+  }
+  // ---- the SAME objects once more from the beginning (variant 3): in between the reconstruction object was set up and run
+  // with another number of subsets, so anything that survives a set_up would show
+  {
+    const std::string rprefix = scratch + "/c07_res";
+    Recon* rc = w.recon.get();
+    vh::Json jr("Resume");
+    jr.num("k", 0).num("variant", 3).boolean("eip", c.eip);
+    bool rerr = vh::threw([&] {
+      const int otherN = c.N == 1 ? 2 : 1;
+      rc->set_disable_output(true);
+      rc->set_num_subsets(otherN);
+      rc->set_start_subset_num(0);
+      rc->set_start_subiteration_num(1);
+      rc->set_num_subiterations(2);
+      rc->set_save_interval(2);
+      shared_ptr<Img> other = image_from(s, start);
+      if (rc->set_up(other) == Succeeded::yes) rc->reconstruct(other);
+      rc->set_disable_output(false);
+      rc->set_num_subsets(c.N);
+      rc->set_start_subset_num(c.startSubset);
+      rc->set_num_subiterations(K);
+      rc->set_save_interval(1);
+      rc->set_output_filename_prefix(rprefix);
+    }, &msg);
+    shared_ptr<Img> from = image_from(s, start);
+    put_bits(jr, "fromh", "froml", *from);
+    bool ok3 = false;
+    if (!rerr) rerr = vh::threw([&] { ok3 = rc->set_up(from) == Succeeded::yes; }, &msg);
+    put_bits(jr, "afterh", "afterl", *from);
+    if (!rerr && ok3) rerr = vh::threw([&] { rc->reconstruct(from); }, &msg);
+    jr.boolean("err", rerr || !ok3);
+    if (rerr) jr.str("msg", msg.substr(0, 100));
+    tr.emit(jr);
+    if (!rerr && ok3)
+      for (int jn = 1; jn <= K; ++jn) {
+        vh::Json jc("Cont");
+        jc.num("k", 0).num("j", jn).num("variant", 3);
+        shared_ptr<Img> im;
+        const bool e2 = vh::threw([&] { im = read_from_file<Img>(saved_name(rprefix, jn)); }, &msg);
+        jc.boolean("err", e2 || !im);
+        if (!e2 && im) put_bits(jc, "bh", "bl", *im);
+        tr.emit(jc);
+        remove_saved(rprefix, jn);
+      }
   }
   for (int k = 1; k <= K; ++k) remove_saved(prefix, k);
 }
